@@ -1,8 +1,33 @@
 # pid -> claim(...) / NOT_APPLICABLE[pid] = reason.  Kept current as checks are built.
-claim("C02", "static analysis: per-action-class partial evaluation of the transition dispatcher; truth-table comparison of success conditions with required gates",
-      "Decides for every concrete action class that each success exit of Network.perform_action implies the discovery/reachability, pivot-permission, firewall and on-host access gates required by the property, and that every failure exit returns an unmodified fresh copy. Holds for all scenarios/states/draws at once because it is a fact about the path conditions of the code.",
-      "Trusts CPython's ast, the sa/ engine (abstract interpreter, canonicaliser) and that distinct canonical atoms are independent; scenario tables are assumed to say what the file says (C17). Does not observe runs.",
-      "DESIGN.md C02")
-for _p in ["C01","C03","C04","C05","C06","C07","C08","C09","C10","C11","C12","C13","C14","C15","C16","C17","C18","C19"]:
+TB = ("Trusts CPython's ast, the sa/ engine (abstract interpreter, canonicaliser, truth-table comparison with "
+      "distinct canonical atoms treated as independent) and the frozen summaries of numpy/builtin callees "
+      "(DESIGN.md A.4). Decides structural facts of the source, does not observe runs; ")
+GT = "static analysis: per-action-class partial evaluation of the transition dispatcher (gate table); "
+
+claim("C01", GT + "who-may-write over column families; truth-table comparison of guards; finite enumeration of the access-level update",
+      "Decides which stores can reach the compromised/access columns for each of the 7 action classes (only successful Exploit/PrivilegeEscalation, only the target row), that their guards are the service/OS resp. compromised+access+process/OS atoms, that the required gates together force success, and that the stored level equals max(previous, granted) for all 6 combinations. A fact about every path of the code, hence about every scenario, state, action and draw.",
+      TB + "that predicate helpers index the right column relies on the layout check (C09).", "DESIGN.md C01")
+claim("C02", GT + "truth-table comparison of success conditions with the required gates; address-key kind analysis for the host firewall",
+      "Decides for every concrete action class that each success exit of Network.perform_action implies the discovery/reachability, pivot-permission, subnet-firewall (direction-sensitive), host-firewall and on-host access gates required by the property, and that every failure exit returns an unmodified fresh copy.",
+      TB + "scenario tables are assumed to say what the file says (C17).", "DESIGN.md C02")
+claim("C03", GT + "who-may-write for reachable/discovered; store-condition equivalence with the connectivity atom; reset lemma; written induction",
+      "Decides the three lemmas (reset, reachable-update, discovery) from which the invariant follows by the induction in docs/C03-induction.md: the only writers of the two columns, their literal values, loop coverage of the whole address space and equivalence of their conditions with connected(target subnet, host subnet).",
+      TB + "the induction from the lemmas to the invariant is a written argument, not machine-checked.", "DESIGN.md C03, docs/C03-induction.md")
+claim("C04", GT + "column-family classification of all stores; literal-value and loop-coverage checks on reset; AST scan of step-counter writers",
+      "Decides that every status store reachable from a step has value True (access: max(previous, granted)), that no store reaches a configuration column (count 0 with a classifier positive control), that whole-row stores write back the same row, and that reset stores the four initial status values for every address unconditionally and zeroes the counter.",
+      TB + "configuration columns are filled once at construction (C09).", "DESIGN.md C04")
+claim("C05", "static analysis: def-use/linear-form of the reward expression; literal reading of all ActionResult sites; finite enumeration of the value expression; pay=>mark pairing by path condition",
+      "Decides reward = +result.value - action.cost of the same perform_action call; all failure results and scan results carry literal 0; exploit/escalation results carry the host value exactly when ROOT is newly obtained; discovery value is added exactly for connected not-yet-discovered addresses on the path that marks them discovered.",
+      TB + "'at most once over an episode' additionally uses C04 (flags never cleared).", "DESIGN.md C05")
+claim("C06", "static analysis: def-use wiring of the terminal flag; quantified goal condition compared by truth table; step-limit expression over the pre-state",
+      "Decides that the terminal flag is goal_reached(returned state), that goal_reached is the universal ROOT test over all sensitive addresses for explicit and default state, that step increments the counter exactly once unconditionally and reports limit-not-None and steps-after-increment >= limit, and that generative steps never touch the counter.",
+      TB + "dict.get(key, None) semantics for the absent step limit.", "DESIGN.md C06")
+claim("C07", GT + "draw-site count, draw-atom shape, exhaustive valuation enumeration for independence of the result from the draw when a gate fails; literal flags of all ActionResult sites",
+      "Decides one np.random draw per path compared as draw > action.prob => fail, the chance exit (undefined_error only, value 0, unchanged copy), that results do not depend on the draw when a network-level gate fails, the re-exploit bypass, flag exclusivity over all 16+ result sites and the [0,1] guard on prob. Host-level gates evaluated after the draw are reported as known finding F-C07-1 (5 entries).",
+      TB + "numpy's rand() is uniform on [0,1); > vs >= differ only on a measure-zero draw.", "DESIGN.md C07")
+claim("C13", "static analysis: write-effect analysis with fresh/owned root classification over the inlined call tree of generative_step; def-use wiring of step",
+      "Decides that every array store in the call tree of generative_step lands on a fresh np.copy/np.zeros made by the call, that no attribute of the environment/network/state argument is stored, that every dispatcher exit returns a State wrapping a fresh copy, and that step is one call generative_step(self.current_state, action) whose results are installed/returned unchanged.",
+      TB + "numpy copy/view semantics (np.copy fresh, 2-D indexing gives a view).", "DESIGN.md C13")
+for _p in ["C08","C09","C10","C11","C12","C14","C15","C16","C17","C18","C19"]:
     NOT_APPLICABLE[_p] = "check under construction in this round (see DESIGN.md section 3 for the planned static rule); not claimed until its rule module is committed"
 NOT_APPLICABLE["C20"] = "bound correctness is a combinatorial-optimality statement over topologies and episode returns; no structural necessary condition is checkable without executing or proving the algorithm"
